@@ -773,6 +773,10 @@ func (g *G) topResources(doc *Y, c *svcCtx, tag string, dir string) {
 				vols.Set(name, Null())
 			case 1:
 				v := Map().Set("external", Bool(true))
+				if g.chance("ext-legacy", 1, 4) {
+					// deprecated spelling: the name travels inside external
+					v = Map().Set("external", Map().Set("name", Str("legacy-ext-"+name)))
+				}
 				if g.chance("ext-x", 1, 2) {
 					v.Set("x-note", Str("ext"))
 					v.Set("x-other", Int(1))
